@@ -6,7 +6,7 @@
 From Coq Require Import List NArith Bool Lia ZArith ZifyN ZifyNat ZifyBool.
 From GM Require Import Base.Lts Codec.Packet Session.Ids Session.Store Session.StoreProofs
   Broker.Conn Broker.ConnSpec Broker.ConnBase Broker.ConnProofsCDefs Broker.ConnProofsC0 Broker.ConnProofsC1
-  Broker.ConnProofsC4 Broker.ConnProofsC7.
+  Broker.ConnProofsC2 Broker.ConnProofsC4 Broker.ConnProofsC7.
 Import ListNotations.
 Open Scope N_scope.
 
@@ -109,3 +109,405 @@ Lemma INV4_init : INV4 bc_init.
 Proof. split; [exact INV3_init|exact INVC_init]. Qed.
 Lemma INV4_step s e s' : INV4 s -> step s e = Some s' -> INV4 s'.
 Proof. intros [H1 H2] H. split; [eapply INV3_step; eassumption|eapply INVC_step; [apply H1|exact H2|exact H]]. Qed.
+
+(* ---------------------------- the scanner agrees with the c16_bound scanner *)
+
+(* a retransmitted PUBLISH carries a QoS>0 message *)
+Definition dup_ok (e : event) : Prop :=
+  match e with ETx _ (Publish true m _) _ true => (m_qos m =? 0) = false | _ => True end.
+
+Lemma sl2_sync u t e t' u' :
+  s2_fl u = wb_fl t -> s2_spur u = wb_spur t -> s2_w u = wb_w t ->
+  wb_step t e = Some t' -> sl2_step u e = Some u' -> dup_ok e ->
+  s2_fl u' = wb_fl t' /\ s2_spur u' = wb_spur t' /\ s2_w u' = wb_w t'.
+Proof.
+  intros Ef Es Ew Hw Hu Hd.
+  destruct e; cbn [wb_step sl2_step] in Hw, Hu; try (injection Hw as <-; injection Hu as <-; repeat split; assumption).
+  - (* ERx *)
+    destruct p; try (injection Hw as <-; injection Hu as <-; repeat split; assumption);
+      rewrite Ef in Hu; destruct (nmem id (wb_fl t)); injection Hw as <-; injection Hu as <-; cbn;
+      repeat split; try assumption; rewrite ?Ef; reflexivity.
+  - (* ETx *)
+    destruct p; try (injection Hw as <-; injection Hu as <-; repeat split; assumption).
+    + destruct ok; [|destruct dup; injection Hw as <-; injection Hu as <-; repeat split; assumption].
+      destruct dup.
+      * cbn [dup_ok] in Hd. rewrite Hd in Hw. rewrite Ef in Hu.
+        match type of Hw with (if ?b then _ else _) = _ => destruct b end; [|discriminate Hw].
+        injection Hw as <-; injection Hu as <-; cbn. repeat split; assumption.
+      * rewrite Ef in Hu. destruct (m_qos m =? 0); cbn [orb] in Hu.
+        -- injection Hw as <-; injection Hu as <-; cbn. repeat split; assumption.
+        -- match type of Hw with (if ?b then _ else _) = _ => destruct b end; [|discriminate Hw].
+           injection Hw as <-; injection Hu as <-; cbn. repeat split; assumption.
+    + destruct ok; [|injection Hw as <-; injection Hu as <-; repeat split; assumption].
+      rewrite Ef in Hu. match type of Hw with (if ?b then _ else _) = _ => destruct b end; [|discriminate Hw].
+      injection Hw as <-; injection Hu as <-; cbn. repeat split; assumption.
+  - (* ESetup *) destruct r; injection Hw as <-; injection Hu as <-; cbn; repeat split; try assumption. rewrite Es. reflexivity.
+  - (* EDelete *) destruct d; [injection Hw as <-; injection Hu as <-; repeat split; assumption|].
+    destruct ok; injection Hw as <-; injection Hu as <-; cbn; repeat split; assumption.
+  - (* EDie *) destruct k; try (injection Hw as <-; injection Hu as <-; repeat split; assumption).
+    match type of Hu with (if ?b then _ else _) = _ => destruct b end; [discriminate Hu|].
+    injection Hw as <-; injection Hu as <-; repeat split; assumption.
+Qed.
+
+Lemma cokb_dup_qos q p : packet_eqb q (set_dup p) = true -> cokb p = true ->
+  match q with Publish _ m _ => (m_qos m =? 0) = false | _ => True end.
+Proof.
+  intros H Hc. pose proof (packet_eqb_cokb _ _ H) as Hq. rewrite cokb_set_dup in Hq. specialize (Hq Hc).
+  destruct q; try exact I. cbn [cokb] in Hq. destruct (m_qos m =? 0); [discriminate Hq|reflexivity].
+Qed.
+
+Lemma step_dup_ok s e s' : INV s -> INVC s -> step s e = Some s' -> dup_ok e.
+Proof.
+  intros HI HC H. destruct e; try exact I. destruct p; try exact I. destruct dup; [|exact I]. destruct ok; [|exact I].
+  cbn [dup_ok]. apply step_inv in H.
+  destruct H as [He Ho ->|He Ho ->|He Hq ->|Hc|g' s1 Hg Hl Hr Ho Hp|g' s1 Hg Hl Hr Ho Hnp Hd
+                |g' s1 Hg Hl Hr Ho Hnp Hnd Ha|g' s1 Hg Hl Hr Ho Hc|He Hc|g' He Ho ->]; try discriminate.
+  - assert (HC1 : INVC s1) by (destruct Hl as [->|(g0 & _ & [[_ ->]|[[_ ->]|[[_ ->]|[_ ->]]]])]; try exact HC; (eapply INVC_frame; [| |exact HC]); reflexivity).
+    destruct HC1 as [_ C2]. unfold step_proc, proc_dispatch, die_p, guard in Hp. inv_step Hp; try discriminate.
+    all: inversion C2 as [|? ? Hpk Hl0]; subst;
+      match goal with Hx : packet_eqb _ (set_dup _) = true |- _ => exact (cokb_dup_qos _ _ Hx Hpk) end.
+  - exfalso. pose proof (I_shape _ (INV_learned _ _ Hl HI)) as Hsh.
+    unfold step_deq, guard in Hd. inv_step Hd; cbn [dp_shape] in Hsh; destruct Hsh as (m0 & id0 & ->);
+      match goal with Hx : packet_eqb _ _ = true |- _ => apply packet_eqb_publish_l in Hx; discriminate Hx end.
+  - exfalso. pose proof (INV_learned _ _ Hl HI) as HI1. pose proof (step_ack_sum _ _ _ Ha) as (_ & _ & He).
+    cbn beta iota in He. destruct async; [|contradiction]. destruct He as (q' & Ht & _).
+    pose proof (ackq_take_is_ack _ _ _ Ht (I_ackq _ HI1)) as Hk. discriminate Hk.
+  - apply step_cleanup_sum in Hc as (He & _). contradiction.
+Qed.
+
+(* ------------------------------------ the waiting dequeuer; acks in hand *)
+
+Definition next_idle (u : sl2_st) (e : event) : list N :=
+  match e with
+  | ENewConn => []
+  | EDeqCall g => filter (fun x => negb (x =? g)) (s2_idle u)
+  | ETx g (Publish false _ _) _ true => if nmem g (s2_idle u) then s2_idle u else g :: s2_idle u
+  | _ => s2_idle u
+  end.
+Definition next_ack (u : sl2_st) (e : event) : list N :=
+  match e with
+  | ENewConn => []
+  | ERx _ (Puback id) | ERx _ (Pubcomp id) => if nmem id (s2_fl u) then id :: s2_ack u else s2_ack u
+  | EDelete _ Outgoing id true => nremove1 id (s2_ack u)
+  | _ => s2_ack u
+  end.
+
+Lemma sl2_next u e u' : sl2_step u e = Some u' -> s2_idle u' = next_idle u e /\ s2_ack u' = next_ack u e.
+Proof.
+  intros H. destruct e; cbn [sl2_step next_idle next_ack] in *; try (injection H as <-; split; reflexivity).
+  - destruct p; try (injection H as <-; split; reflexivity); destruct (nmem id (s2_fl u)); injection H as <-; split; reflexivity.
+  - destruct p; try (injection H as <-; split; reflexivity); destruct ok; try (injection H as <-; split; reflexivity);
+      destruct dup; injection H as <-; split; reflexivity.
+  - destruct r; injection H as <-; split; reflexivity.
+  - destruct d; [injection H as <-; split; reflexivity|]. destruct ok; injection H as <-; split; reflexivity.
+  - destruct k; try (injection H as <-; split; reflexivity).
+    match type of H with (if ?b then _ else _) = _ => destruct b end; [discriminate H|injection H as <-; split; reflexivity].
+Qed.
+
+Definition waiting (d : dpc) : Prop := d = DToken \/ d = DDieClose \/ d = DDone.
+
+Record RUI (s : bc) (u : sl2_st) : Prop := MkRUI {
+  U_idle : forall g, In g (s2_idle u) -> gdeq s = Some g /\ waiting (dp s);
+  U_ack : pre_loop (pp s) = true -> s2_ack u = [] }.
+
+Lemma next_idle_notfresh u g p a ok : not_fresh p -> next_idle u (ETx g p a ok) = s2_idle u.
+Proof. destruct p; try reflexivity. destruct dup; [reflexivity|contradiction]. Qed.
+
+Lemma RUI_proc s t u e s' u' : INV s -> RW s t -> s2_fl u = wb_fl t -> RUI s u ->
+  step_proc s e = Some s' -> sl2_step u e = Some u' -> RUI s' u'.
+Proof.
+  intros HI [_ Hfl] Ef [U1 U2] H Hu. apply sl2_next in Hu as [Ei Ea].
+  pose proof (I_pre _ HI) as Hpre.
+  unfold step_proc, proc_dispatch, die_p, guard in H.
+  inv_step H; inv_helpers; injection H as <-; subst; cbn [pre_loop early] in *.
+  all: try (cbn [next_idle next_ack] in Ei, Ea; constructor; rewrite ?Ei, ?Ea; bcsimpl; cbn [pre_loop]; first [exact U1|exact U2|discriminate]).
+  - cbn [next_idle next_ack] in Ei, Ea. destruct fresh; constructor; rewrite ?Ei, ?Ea; bcsimpl; first [exact U1|exact U2].
+  - cbn [next_idle next_ack] in Ei, Ea. destruct l; constructor; rewrite ?Ei, ?Ea; bcsimpl; first [exact U1|intros _; apply U2; reflexivity].
+  - rewrite next_idle_notfresh in Ei by (eapply resend_not_fresh; eassumption).
+    unfold take_deq_if_any, take_deq. destruct (0 <? tdeq s); destruct l; constructor; rewrite ?Ei, ?Ea; bcsimpl;
+      first [exact U1|intros _; apply U2; reflexivity].
+  - rewrite next_idle_notfresh in Ei by (eapply resend_not_fresh; eassumption).
+    unfold take_deq_if_any, take_deq. destruct (0 <? tdeq s); constructor; rewrite ?Ei, ?Ea; bcsimpl; cbn [pre_loop];
+      first [exact U1|discriminate].
+  - (* Restore: nobody was waiting *)
+    destruct (Hpre eq_refl) as [Hd _]. cbn [next_idle next_ack] in Ei, Ea.
+    constructor; rewrite ?Ei, ?Ea; bcsimpl; cbn [pre_loop]; [|discriminate].
+    intros g' Hg'. destruct (U1 g' Hg') as [_ [C|[C|C]]]; congruence.
+Qed.
+
+Lemma RUI_deq s u e s' u' g : INV s -> RUI s u -> ev_g e = Some g -> gdeq s = Some g ->
+  step_deq s e = Some s' -> sl2_step u e = Some u' -> RUI s' u'.
+Proof.
+  intros HI [U1 U2] Hg Hr H Hu. apply sl2_next in Hu as [Ei Ea].
+  pose proof (I_shape _ HI) as Hsh.
+  assert (Hnp : pre_loop (pp s) = false).
+  { destruct (pre_loop (pp s)) eqn:Ep; [|reflexivity]. destruct (I_pre _ HI Ep) as [Hd _].
+    unfold step_deq in H. rewrite Hd in H. discriminate H. }
+  unfold step_deq, guard in H.
+  inv_step H; inv_helpers; injection H as <-; subst; cbn [dp_shape] in Hsh; cbn [ev_g] in Hg;
+    try injection Hg as ->.
+  all: try (cbn [next_idle next_ack] in Ei, Ea; constructor; rewrite ?Ei, ?Ea; bcsimpl; [|rewrite Hnp; discriminate];
+            intros g' Hg'; destruct (U1 g' Hg') as [G [C|[C|C]]]; congruence).
+  - (* DeqCall *) cbn [next_idle next_ack] in Ei, Ea. constructor; rewrite ?Ei, ?Ea; bcsimpl; [|rewrite Hnp; discriminate].
+    intros g' Hg'. apply filter_In in Hg' as [Hin Hne]. destruct (U1 g' Hin) as [G _].
+    rewrite Hr in G. injection G as <-. rewrite N.eqb_refl in Hne. discriminate Hne.
+  - (* token timeout *) cbn [next_idle next_ack] in Ei, Ea. constructor; rewrite ?Ei, ?Ea; bcsimpl; [|rewrite Hnp; discriminate].
+    intros g' Hg'. destruct (U1 g' Hg') as [G _]. split; [exact G|right; left; reflexivity].
+  - (* Send ok *) destruct Hsh as (m & id & ->).
+    match goal with Hx : packet_eqb _ _ = true |- _ => apply packet_eqb_publish_l in Hx; subst end.
+    cbn [next_idle next_ack] in Ei, Ea.
+    assert (Hd : forall X, dp (set_dp X DToken) = DToken) by reflexivity.
+    constructor; rewrite ?Ei, ?Ea.
+    + intros g' Hg'. split; [|left; reflexivity].
+      assert (G : gdeq s = Some g').
+      { destruct (nmem g (s2_idle u)); [apply (U1 g' Hg')|]. destruct Hg' as [<-|Hg']; [exact Hr|apply (U1 g' Hg')]. }
+      destruct (m_qos m =? 0); exact G.
+    + assert (Ep : pp (set_dp (if m_qos m =? 0 then put_deq s else s) DToken) = pp s) by (destruct (m_qos m =? 0); reflexivity).
+      rewrite Ep, Hnp. discriminate.
+  - (* Send fail *) destruct Hsh as (m & id & ->).
+    match goal with Hx : packet_eqb _ _ = true |- _ => apply packet_eqb_publish_l in Hx; subst end.
+    cbn [next_idle next_ack] in Ei, Ea. constructor; rewrite ?Ei, ?Ea; bcsimpl; [|rewrite Hnp; discriminate].
+    intros g' Hg'. destruct (U1 g' Hg') as [G [C|[C|C]]]; congruence.
+  - (* ConnClose *) cbn [next_idle next_ack] in Ei, Ea. constructor; rewrite ?Ei, ?Ea; bcsimpl; [|rewrite Hnp; discriminate].
+    intros g' Hg'. destruct (U1 g' Hg') as [G _]. split; [exact G|right; right; reflexivity].
+Qed.
+
+Lemma RUI_frame s s' u u' :
+  s2_idle u' = s2_idle u -> s2_ack u' = s2_ack u -> gdeq s' = gdeq s ->
+  (waiting (dp s) -> waiting (dp s')) -> (pre_loop (pp s') = true -> pre_loop (pp s) = true) ->
+  RUI s u -> RUI s' u'.
+Proof.
+  intros Ei Ea Eg Ed Ep [U1 U2]. constructor; rewrite ?Ei, ?Ea, ?Eg.
+  - intros g Hg. destruct (U1 g Hg) as [G W]. split; [exact G|apply Ed; exact W].
+  - intros Hp. apply U2, Ep, Hp.
+Qed.
+
+Lemma next_same u e :
+  match e with ENewConn | EDeqCall _ | ETx _ _ _ _ | ERx _ _ | EDelete _ Outgoing _ true => False | _ => True end ->
+  next_idle u e = s2_idle u /\ next_ack u e = s2_ack u.
+Proof. destruct e; try contradiction; try (split; reflexivity). destruct d; [split; reflexivity|]. destruct ok; [contradiction|split; reflexivity]. Qed.
+
+Lemma RUI_step s t u e s' u' : INV s -> RW s t -> s2_fl u = wb_fl t -> RUI s u ->
+  step s e = Some s' -> sl2_step u e = Some u' -> RUI s' u'.
+Proof.
+  intros HI HW Ef HU H Hu. apply step_inv in H.
+  destruct H as [He Ho ->|He Ho ->|He Hq ->|Hc|g s1 Hg Hl Hr Ho Hp|g s1 Hg Hl Hr Ho Hnp Hd
+                |g s1 Hg Hl Hr Ho Hnp Hnd Ha|g s1 Hg Hl Hr Ho Hc|He Hc|g He Ho ->].
+  - subst e. apply sl2_next in Hu as [Ei Ea]. constructor; rewrite ?Ei, ?Ea; cbn [next_idle next_ack]; [intros ? []|reflexivity].
+  - subst e. apply sl2_next in Hu as [Ei Ea]. (apply (RUI_frame s _ u u'); [exact Ei|exact Ea| | | |exact HU]); auto.
+  - subst e. apply sl2_next in Hu as [Ei Ea]. (apply (RUI_frame s _ u u'); [exact Ei|exact Ea| | | |exact HU]); auto.
+  - apply step_clo_sum in Hc as (He & Hs & _). apply sl2_next in Hu as [Ei Ea].
+    destruct (next_same u e) as [N1 N2]; [destruct e; try contradiction; try exact I; destruct d; [exact I|contradiction]|].
+    apply (RUI_frame s s' u u'); [rewrite Ei; exact N1|rewrite Ea; exact N2|apply (sp_gdeq _ _ Hs)|rewrite (sp_dp _ _ Hs); auto|rewrite (sp_pp _ _ Hs); auto|exact HU].
+  - assert (HU1 : RUI s1 u).
+    { destruct (learned_role_kept _ _ Hl) as [_ Kd].
+      assert (E : pp s1 = pp s /\ dp s1 = dp s) by (destruct Hl as [->|(g0 & _ & [[_ ->]|[[_ ->]|[[_ ->]|[_ ->]]]])]; split; reflexivity).
+      destruct E as [Ep Ed]. destruct HU as [U1 U2]. constructor; rewrite ?Ep, ?Ed; [|exact U2].
+      intros g' Hg'. destruct (U1 g' Hg') as [G W]. split; [apply Kd; exact G|exact W]. }
+    eapply RUI_proc; [eapply INV_learned; eassumption|eapply RW_learned; eassumption|exact Ef|exact HU1|exact Hp|exact Hu].
+  - assert (HU1 : RUI s1 u).
+    { destruct (learned_role_kept _ _ Hl) as [_ Kd].
+      assert (E : pp s1 = pp s /\ dp s1 = dp s) by (destruct Hl as [->|(g0 & _ & [[_ ->]|[[_ ->]|[[_ ->]|[_ ->]]]])]; split; reflexivity).
+      destruct E as [Ep Ed]. destruct HU as [U1 U2]. constructor; rewrite ?Ep, ?Ed; [|exact U2].
+      intros g' Hg'. destruct (U1 g' Hg') as [G W]. split; [apply Kd; exact G|exact W]. }
+    eapply RUI_deq; [eapply INV_learned; eassumption|exact HU1|exact Hg|exact Hr|exact Hd|exact Hu].
+  - pose proof (INV_learned _ _ Hl HI) as HI1. pose proof (step_ack_sum _ _ _ Ha) as (Hs & _ & He).
+    destruct (learned_role_kept _ _ Hl) as [_ Kd].
+    assert (E : pp s1 = pp s /\ dp s1 = dp s) by (destruct Hl as [->|(g0 & _ & [[_ ->]|[[_ ->]|[[_ ->]|[_ ->]]]])]; split; reflexivity).
+    destruct E as [Ep Ed]. apply sl2_next in Hu as [Ei Ea].
+    assert (N : next_idle u e = s2_idle u /\ next_ack u e = s2_ack u).
+    { destruct e; try contradiction; try (split; reflexivity).
+      destruct async; [|contradiction]. destruct He as (q' & Ht & _). split; [|reflexivity].
+      apply next_idle_notfresh, ack_not_fresh. eapply ackq_take_is_ack; [exact Ht|apply (I_ackq _ HI1)]. }
+    destruct N as [N1 N2]. destruct HU as [U1 U2].
+    constructor; rewrite ?Ei, ?Ea, ?N1, ?N2, ?(sp_gdeq _ _ Hs), ?(sp_dp _ _ Hs), ?(sp_pp _ _ Hs), ?Ep, ?Ed; [|exact U2].
+    intros g' Hg'. destruct (U1 g' Hg') as [G W]. split; [apply Kd; exact G|exact W].
+  - destruct (learned_role_kept _ _ Hl) as [_ Kd].
+    assert (E : pp s1 = pp s /\ dp s1 = dp s) by (destruct Hl as [->|(g0 & _ & [[_ ->]|[[_ ->]|[[_ ->]|[_ ->]]]])]; split; reflexivity).
+    destruct E as [Ep Ed]. apply sl2_next in Hu as [Ei Ea].
+    apply step_cleanup_sum in Hc as (He & Hc).
+    destruct (next_same u e) as [N1 N2]; [destruct e; try contradiction; exact I|].
+    destruct HU as [U1 U2]. destruct Hc as [(Hs & _)|Hf].
+    + constructor; rewrite ?Ei, ?Ea, ?N1, ?N2, ?(sp_gdeq _ _ Hs), ?(sp_dp _ _ Hs), ?(sp_pp _ _ Hs), ?Ep, ?Ed; [|exact U2].
+      intros g' Hg'. destruct (U1 g' Hg') as [G W]. split; [apply Kd; exact G|exact W].
+    + constructor; rewrite ?Ei, ?Ea, ?N1, ?N2, ?(fz_gdeq _ _ Hf), ?(fz_dp _ _ Hf), ?(fz_pp _ _ Hf), ?Ed; [|discriminate].
+      intros g' Hg'. destruct (U1 g' Hg') as [G W]. split; [apply Kd; exact G|].
+      destruct W as [W|[W|W]]; rewrite W; right; right; reflexivity.
+  - subst e. apply sl2_next in Hu as [Ei Ea]. cbn [next_idle next_ack] in Ei, Ea.
+    apply step_cleanup_sum in Hc as (_ & Hc). destruct HU as [U1 U2]. destruct Hc as [(Hs & _)|Hf].
+    + constructor; rewrite ?Ei, ?Ea, ?(sp_gdeq _ _ Hs), ?(sp_dp _ _ Hs), ?(sp_pp _ _ Hs); assumption.
+    + constructor; rewrite ?Ei, ?Ea, ?(fz_gdeq _ _ Hf), ?(fz_dp _ _ Hf), ?(fz_pp _ _ Hf); [|discriminate].
+      intros g' Hg'. destruct (U1 g' Hg') as [G W]. split; [exact G|].
+      destruct W as [W|[W|W]]; rewrite W; right; right; reflexivity.
+  - subst e. apply sl2_next in Hu as [Ei Ea]. (apply (RUI_frame s _ u u'); [exact Ei|exact Ea| | | |exact HU]); auto.
+Qed.
+
+(* ------------------------------------------------------- the lower bound *)
+
+Definition alive (d : dpc) : bool :=
+  match d with DToken | DWait | DNextId _ _ | DSave _ _ | DBackAck _ | DSend _ => true | _ => false end.
+
+Record RLr (s : bc) (t : wb_st) (u : sl2_st) : Prop := MkRLr {
+  L_alive : alive (dp s) = true ->
+            cw s <= N.of_nat (length (wb_fl t) + length (s2_ack u)) + tdeq s + held (dp s);
+  L_phase : match pp s with
+            | PResend rest =>
+                cw s <= N.of_nat (length (wb_fl t)) + tdeq s /\ NoDup (map get_id rest) /\
+                (forall p i, In p rest -> get_id p = Some i -> ~ In i (wb_fl t))
+            | PRestore => cw s <= N.of_nat (length (wb_fl t)) + tdeq s
+            | PAckDel id => In id (s2_ack u)
+            | _ => True
+            end }.
+
+Definition plain_l (p : ppc) : Prop := match p with PResend _ | PRestore | PAckDel _ => False | _ => True end.
+
+Lemma RLr_frame s s' t u u' :
+  s2_ack u' = s2_ack u -> cw s' = cw s -> tdeq s' = tdeq s ->
+  (alive (dp s') = true -> alive (dp s) = true /\ held (dp s') = held (dp s)) ->
+  (pp s' = pp s \/ plain_l (pp s')) -> RLr s t u -> RLr s' t u'.
+Proof.
+  intros Ea Ec Et Ed Ep [L1 L2]. constructor; rewrite ?Ea, ?Ec, ?Et.
+  - intros Ha. destruct (Ed Ha) as [Ha0 Eh]. rewrite Eh. apply L1. exact Ha0.
+  - destruct Ep as [Ep|Ep]; [rewrite Ep; exact L2|destruct (pp s'); try exact I; contradiction].
+Qed.
+
+(* the ids listed at a resume are distinct *)
+Lemma map_get_id_eqb ps qs : list_eqb packet_eqb ps qs = true -> map get_id ps = map get_id qs.
+Proof.
+  revert qs. induction ps as [|x ps IH]; intros [|y qs] H; cbn [list_eqb] in H; try discriminate H; [reflexivity|].
+  apply andb_prop in H as [H1 H2]. cbn [map]. rewrite (packet_eqb_get_id _ _ H1), (IH _ H2). reflexivity.
+Qed.
+
+Lemma map_get_id_store st : ids_ok st -> map get_id (store_all st) = map Some (keys st).
+Proof.
+  induction st as [|[k q] st IH]; intros Hok; [reflexivity|]. cbn [store_all keys map fst snd].
+  rewrite (Hok k q (or_introl eq_refl)). f_equal. apply IH. intros ? ? ?. apply Hok. right. assumption.
+Qed.
+
+Lemma NoDup_map_Some (l : list N) : NoDup l -> NoDup (map Some l).
+Proof.
+  induction l as [|x l IH]; intros H; cbn [map]; [constructor|]. inversion H as [|? ? Hn Hl]; subst.
+  constructor; [|apply IH; exact Hl]. intros C. apply in_map_iff in C as (y & E & Hy). injection E as ->. contradiction.
+Qed.
+
+Lemma resume_ids_nodup st ps : NoDup (keys st) -> ids_ok st -> list_eqb packet_eqb ps (store_all st) = true ->
+  NoDup (map get_id ps).
+Proof. intros Hn Hok H. rewrite (map_get_id_eqb _ _ H), (map_get_id_store _ Hok). apply NoDup_map_Some. exact Hn. Qed.
+
+Lemma nremove1_length' k l : In k l -> S (length (nremove1 k l)) = length l.
+Proof. intros H. apply nremove1_length. apply nmem_true_iff. exact H. Qed.
+
+Lemma RL_ack s t u g p id t' u' X :
+  RLr s t u -> s2_fl u = wb_fl t -> p = Puback id \/ p = Pubcomp id ->
+  wb_step t (ERx g p) = Some t' -> s2_ack u' = next_ack u (ERx g p) ->
+  X = PAckDel id \/ plain_l X ->
+  wb_spur t' = true \/ RLr (set_pp s X) t' u'.
+Proof.
+  intros [L1 L2] Ef Hp Hw Ea HX.
+  destruct (wb_rx_ack t g p id Hp) as [(En & E & Hlen)|E]; rewrite E in Hw; injection Hw as <-; [right|left; reflexivity].
+  assert (Ea' : s2_ack u' = id :: s2_ack u).
+  { rewrite Ea. destruct Hp as [->| ->]; cbn [next_ack]; rewrite Ef, En; reflexivity. }
+  constructor; bcsimpl; cbn [wb_fl]; rewrite Ea'.
+  - intros Ha. specialize (L1 Ha). cbn [length]. lia.
+  - destruct HX as [->|HX]; [left; reflexivity|destruct X; try exact I; contradiction].
+Qed.
+
+Lemma RL_rec s t u g id t' u' X :
+  RLr s t u -> wb_step t (ERx g (Pubrec id)) = Some t' -> s2_ack u' = s2_ack u -> plain_l X ->
+  wb_spur t' = true \/ RLr (set_pp s X) t' u'.
+Proof.
+  intros [L1 L2] Hw Ea HX. cbn [wb_step] in Hw.
+  destruct (nmem id (wb_fl t)); injection Hw as <-; [right|left; reflexivity].
+  constructor; bcsimpl; rewrite Ea; [exact L1|destruct X; try exact I; contradiction].
+Qed.
+
+Lemma RL_proc s t v u e s' t' u' :
+  INV s -> INVS s -> INVC s -> RW s t -> RFr s t -> RTr s v -> RUI s u -> s2_fl u = wb_fl t -> RLr s t u ->
+  step_proc s e = Some s' -> wb_step t e = Some t' -> sl2_step u e = Some u' -> is_setup_ok e = false ->
+  wb_spur t' = true \/ RLr s' t' u'.
+Proof.
+  intros HI HS HC [_ Hfl] HF HT [_ U2] Ef HL H Hw Hu Ese. apply sl2_next in Hu as [_ Ea].
+  pose proof (I_pre _ HI) as Hpre. pose proof (I_store _ HI) as Hst. pose proof (I_resend _ HI) as Hrs.
+  pose proof HS as [S1 S2 S3]. pose proof HC as [_ C2].
+  pose proof HF as [F1 F2 F3 F4]. pose proof HT as [_ T2 _]. pose proof HL as [L1 L2].
+  unfold step_proc, proc_dispatch, die_p, guard in H.
+  inv_step H; inv_helpers; injection H as <-; subst; cbn [pre_loop early] in *; try discriminate Ese.
+  all: try (cbn [wb_step] in Hw; injection Hw as <-; cbn [next_ack] in Ea; right;
+            (eapply RLr_frame; [exact Ea| | | | |exact HL]); bcsimpl;
+            [reflexivity|reflexivity|intros Ha; split; [exact Ha|reflexivity]|first [left; reflexivity|right; exact I]]).
+  - eapply RL_ack; [exact HL|exact Ef|left; reflexivity|exact Hw|exact Ea|right; exact I].
+  - eapply RL_rec; [exact HL|exact Hw|exact Ea|exact I].
+  - eapply RL_ack; [exact HL|exact Ef|right; reflexivity|exact Hw|exact Ea|right; exact I].
+  - (* All *)
+    cbn [wb_step] in Hw; injection Hw as <-; cbn [next_ack] in Ea; right.
+    destruct T2 as [Ht _]. pose proof (Hfl eq_refl) as Hn. destruct (Hpre eq_refl) as [Hd _].
+    match goal with Hl : list_eqb packet_eqb _ _ = true |- _ => pose proof (resume_ids_nodup _ _ S1 S2 Hl) as Hnd end.
+    destruct l; constructor; bcsimpl; rewrite ?Hd, ?Hn; cbn [alive length]; try discriminate; try lia.
+    repeat split; [lia|exact Hnd|intros ? ? _ _ []].
+  - (* Resend ok *)
+    destruct (Hpre eq_refl) as [Hd _]. destruct L2 as (La & Lb & Lc).
+    inversion C2 as [|? ? Hck Hcl]; subst. destruct Hrs as [Hrs _]. inversion Hrs as [|? ? Hsp Hsl]; subst.
+    match goal with Hq : packet_eqb _ _ = true |- _ => pose proof (counted_set_dup _ _ Hq) as Hip end.
+    rewrite (cokb_counted _ Hck) in Hip.
+    destruct (get_id p) as [i|] eqn:Gi; [|unfold storable in Hsp; rewrite Gi in Hsp; discriminate Hsp].
+    assert (Hni : ~ In i (wb_fl t)) by (apply (Lc p i (or_introl eq_refl) Gi)).
+    assert (Et : t' = WbSt (wb_w t) (i :: wb_fl t) (wb_spur t)).
+    { rewrite (wb_tx_counted _ _ _ _ _ _ Hip Hw). unfold fl_add.
+      destruct (nmem i (wb_fl t)) eqn:En; [apply nmem_true_iff in En; contradiction|reflexivity]. }
+    subst t'. cbn [next_ack] in Ea. right.
+    assert (Htd : tdeq s <= tdeq (take_deq_if_any s) + 1).
+    { unfold take_deq_if_any, take_deq. destruct (N.ltb_spec 0 (tdeq s)); bcsimpl; lia. }
+    cbn [map] in Lb. inversion Lb as [|? ? Lb1 Lb2]; subst.
+    assert (Hd' : forall X, dp (set_pp (sess_save (take_deq_if_any s) Outgoing (set_dup p)) X) = DOff).
+    { intros X. unfold take_deq_if_any, take_deq. destruct (0 <? tdeq s); bcsimpl; exact Hd. }
+    assert (Hc' : forall X, cw (set_pp (sess_save (take_deq_if_any s) Outgoing (set_dup p)) X) = cw s).
+    { intros X. unfold take_deq_if_any, take_deq. destruct (0 <? tdeq s); reflexivity. }
+    assert (Ht' : forall X, tdeq (set_pp (sess_save (take_deq_if_any s) Outgoing (set_dup p)) X) = tdeq (take_deq_if_any s)).
+    { intros X. reflexivity. }
+    constructor; rewrite ?Hd', ?Hc', ?Ht'; cbn [alive wb_fl length]; [discriminate|].
+    destruct l; bcsimpl; cbn [wb_fl length]; [lia|].
+    repeat split; [lia|exact Lb2|].
+    intros q j Hq Gj [E|C]; [|exact (Lc q j (or_intror Hq) Gj C)].
+    apply Lb1. replace (get_id p) with (get_id q) by congruence. apply in_map. exact Hq.
+  - (* Resend fail *)
+    destruct (Hpre eq_refl) as [Hd _]. rewrite wb_tx_fail in Hw. injection Hw as <-. right.
+    constructor.
+    + unfold take_deq_if_any, take_deq. destruct (0 <? tdeq s); bcsimpl; rewrite Hd; discriminate.
+    + exact I.
+  - (* Restore ok *)
+    cbn [wb_step] in Hw; injection Hw as <-; cbn [next_ack] in Ea; right.
+    constructor; bcsimpl; cbn [alive held deq_busy]; [intros _; lia|exact I].
+  - eapply RL_ack; [exact HL|exact Ef|left; reflexivity|exact Hw|exact Ea|left; reflexivity].
+  - eapply RL_rec; [exact HL|exact Hw|exact Ea|exact I].
+  - eapply RL_ack; [exact HL|exact Ef|right; reflexivity|exact Hw|exact Ea|left; reflexivity].
+  - (* AckDel ok *)
+    match goal with Hq : (_ =? _) = true |- _ => apply N.eqb_eq in Hq; subst end.
+    cbn [wb_step] in Hw; injection Hw as <-; cbn [next_ack] in Ea; right.
+    pose proof (nremove1_length' _ _ L2) as Hlen.
+    constructor; bcsimpl; rewrite ?Ea; [|exact I].
+    intros Ha. specialize (L1 Ha). lia.
+  - (* RelTx ok *)
+    match goal with Hq : (_ =? _) = true |- _ => apply N.eqb_eq in Hq; subst end.
+    destruct F4 as (_ & B).
+    rewrite (wb_tx_counted t g (Pubrel id0) true id0 t' eq_refl Hw), (fl_add_in _ _ B). cbn [next_ack] in Ea. right.
+    constructor; bcsimpl; cbn [wb_fl]; rewrite ?Ea; [exact L1|exact I].
+Qed.
+
+Lemma RL_deq s t u e s' t' u' :
+  INV s -> RFr s t -> RLr s t u ->
+  step_deq s e = Some s' -> wb_step t e = Some t' -> sl2_step u e = Some u' ->
+  wb_spur t' = true \/ RLr s' t' u'.
+Proof.
+  intros HI HF HL H Hw Hu. apply sl2_next in Hu as [_ Ea]. right.
+  pose proof (I_shape _ HI) as Hsh. pose proof HF as [F1 F2 F3 F4]. pose proof HL as [L1 L2].
+  assert (Hnp : pre_loop (pp s) = false).
+  { destruct (pre_loop (pp s)) eqn:Ep; [|reflexivity]. destruct (I_pre _ HI Ep) as [Hd _].
+    unfold step_deq in H. rewrite Hd in H. discriminate H. }
+  unfold step_deq, guard in H.
+  inv_step H; inv_helpers; injection H as <-; subst; cbn [dp_shape] in Hsh; cbn [alive held deq_busy] in L1; cbn [pend saved] in F3.
+  all: try (cbn [wb_step] in Hw; injection Hw as <-; cbn [next_ack] in Ea;
+            constructor; bcsimpl; cbn [alive held deq_busy]; rewrite ?Ea;
+            first [discriminate|intros _; specialize (L1 eq_refl); lia
+                  |destruct (pp s); first [discriminate Hnp|exact I|exact L2]]).
+  all: match goal with |- ?G => idtac G end.
+Abort.
